@@ -6,7 +6,7 @@ use koto_lexer::{Lexer, Position};
 use koto_parser::{
     Ast, AstCatch, AstFor, AstIf, AstIndex, AstNode, AstString, AstTry, AstUnaryOp, ChainNode,
     ConstantIndex, ConstantPool, Function, ImportItem, KString, Node, ParserOptions, Span,
-    StringAlignment, StringContents, StringFormatOptions, StringNode,
+    StringAlignment, StringContents, StringFormatOptions, StringFormatRepresentation, StringNode,
 };
 use std::{cell::OnceCell, collections::BTreeMap};
 use unicode_width::{UnicodeWidthChar, UnicodeWidthStr};
@@ -1734,6 +1734,17 @@ fn render_format_options(options: &StringFormatOptions, constants: &ConstantPool
     }
     if let Some(precision) = options.precision {
         result.push_str(&format!(".{precision}"));
+    }
+    if let Some(representation) = options.representation {
+        result.push(match representation {
+            StringFormatRepresentation::Debug => '?',
+            StringFormatRepresentation::HexLower => 'x',
+            StringFormatRepresentation::HexUpper => 'X',
+            StringFormatRepresentation::Binary => 'b',
+            StringFormatRepresentation::Octal => 'o',
+            StringFormatRepresentation::ExpLower => 'e',
+            StringFormatRepresentation::ExpUpper => 'E',
+        });
     }
 
     result
